@@ -642,6 +642,12 @@ class C06(Family):
         grid = lambda h, k: {"vals": [tok(F(h) * i) for i in range(k)], "form": "exact"}
         s2 = dict(s1, dt="T")
         return [
+            # time units scaled by 1e6: integral (dyadic) data, grid spacing no power of two -> the input
+            # interpolation rounds; must be judged with the tolerance (false alarm of thorough seed 21)
+            {"op": "forced", "sys": {"n": 1, "p": 3, "m": 1, "dt": "D100000", "A": ["0"], "B": ["-1"],
+                                     "C": ["0", "0", "0"], "D": ["1", "2", "1"]},
+             "T": {"vals": ["0", "400000"], "form": "int"}, "U": ["V", ["1", "3"], "list"],
+             "X0": ["S", "0", "float"], "tscale": {"kind": "dec", "by": "1e6"}},
             # the dlsim sample count once more, for dt=True / None (the system is run at the spacing
             # of the grid): 8 points, spacing 1/3 -> (T[-1]-T[0]) / ((T[-1]-T[0])/7) < 7 in floats
             # (np.arange(8) * (1/3), np.arange(32) * 0.3)
